@@ -2,6 +2,7 @@ package main
 
 import (
 	"fmt"
+	"sort"
 	"go/types"
 
 	"golang.org/x/tools/go/ssa"
@@ -59,7 +60,8 @@ type RangeIter struct {
 
 // ---- layered arrays ----
 type ArrNode struct {
-	kind           int // 0 base(uf) 1 zero 2 store 3 copy
+	kind           int // 0 base(uf) 1 zero 2 store 3 copy 4 overlay of concrete positions
+	cmap           map[int64]*Term
 	uf             string
 	ew             int
 	parent, src    *ArrNode
@@ -80,11 +82,39 @@ func (in *Interp) baseArr(name string, ew int) *ArrNode {
 }
 func zeroArr(ew int) *ArrNode { return &ArrNode{kind: 1, ew: ew} }
 func (a *ArrNode) Store(i, v *Term) *ArrNode {
+	if i.IsConst() && i.c.IsInt64() {
+		// concrete position: keep an overlay map instead of a chain of stores
+		k := i.c.Int64()
+		if a.kind == 4 && len(a.cmap) < 512 {
+			m := make(map[int64]*Term, len(a.cmap)+1)
+			for kk, vv := range a.cmap {
+				m[kk] = vv
+			}
+			m[k] = v
+			return &ArrNode{kind: 4, ew: a.ew, parent: a.parent, cmap: m}
+		}
+		return &ArrNode{kind: 4, ew: a.ew, parent: a, cmap: map[int64]*Term{k: v}}
+	}
 	return &ArrNode{kind: 2, ew: a.ew, parent: a, idx: i, val: v}
 }
 func (a *ArrNode) Copy(dstOff *Term, src *ArrNode, srcOff, n *Term) *ArrNode {
 	if n.IsConst() && n.c.Sign() == 0 {
 		return a
+	}
+	if n.IsConst() && dstOff.IsConst() && srcOff.IsConst() && n.c.IsInt64() && n.c.Int64() <= 256 && n.c.Int64() > 0 {
+		// concrete copy: resolve the source reads now
+		base, m := a, map[int64]*Term{}
+		if a.kind == 4 && len(a.cmap) < 512 {
+			base = a.parent
+			for kk, vv := range a.cmap {
+				m[kk] = vv
+			}
+		}
+		d, s := dstOff.c.Int64(), srcOff.c.Int64()
+		for k := int64(0); k < n.c.Int64(); k++ {
+			m[d+k] = src.Read(IX(s + k))
+		}
+		return &ArrNode{kind: 4, ew: a.ew, parent: base, cmap: m}
 	}
 	return &ArrNode{kind: 3, ew: a.ew, parent: a, src: src, dstOff: dstOff, srcOff: srcOff, n: n}
 }
@@ -103,6 +133,24 @@ func (a *ArrNode) Read(i *Term) *Term {
 			return IntC(0)
 		}
 		return BV(a.ew, 0)
+	case 4:
+		if i.IsConst() && i.c.IsInt64() {
+			if t, ok := a.cmap[i.c.Int64()]; ok {
+				return t
+			}
+			return a.parent.Read(i)
+		}
+		// symbolic position: ite over the overlay (in ascending order for reproducible terms)
+		r := a.parent.Read(i)
+		ks := make([]int64, 0, len(a.cmap))
+		for k := range a.cmap {
+			ks = append(ks, k)
+		}
+		sort.Slice(ks, func(x, y int) bool { return ks[x] < ks[y] })
+		for _, k := range ks {
+			r = Ite(Eq(i, IX(k)), a.cmap[k], r)
+		}
+		return r
 	case 2:
 		c := Eq(i, a.idx)
 		if c.IsTrue() {
